@@ -496,6 +496,36 @@ func runC17(c *engine.Ctx) {
 	sort.Strings(bad)
 	c.Check(len(bad) == 0, "pkg/msg>kinds", initFn.Pos(), nf, nil, "all %d message fields are of round-trippable kinds (%s)", nf, strings.Join(bad, ","))
 	c.Floor(nf, 100)
+
+	// ---- R8 fresh decode targets ----
+	c.Rule("R8", "a message decoded inside a loop is decoded into a variable allocated in that loop: JSON decoding assigns only the keys present (every field of the udp packet is omitempty), so a reused target keeps the previous frame's values and the decoded message differs from the encoded one")
+	nr := 0
+	if rmi := funcObj(c, "pkg/msg", "ReadMsgInto"); rmi != nil {
+		for _, f := range p.RepoFuncs() {
+			for _, call := range engine.CallsTo(f, rmi) {
+				h := engine.LoopHeader(call.Block())
+				nr++
+				key := fmt.Sprintf("%s>ReadMsgInto#%d", p.FuncName(f), nr)
+				if h == nil {
+					c.Hold(key, call.Pos(), 1, nil, "single decode (not in a loop)")
+					continue
+				}
+				tgt := engine.Unwrap(call.Common().Args[1])
+				al, ok := tgt.(*ssa.Alloc)
+				if !ok {
+					// the target comes from elsewhere (parameter, field): cannot be shown fresh
+					c.Undecide(key, call.Pos(), "decode target inside a loop is not a local variable (%s)", engine.Describe(tgt))
+					continue
+				}
+				c.Check(h.Dominates(al.Block()) && al.Block() != nil, key, call.Pos(), 2, []string{"target allocated at " + p.Pos(al.Pos())},
+					"the decode target is allocated inside the read loop (fresh zero value per frame)")
+			}
+		}
+	}
+	c.Floor(nr, 7)
+
+	// ---- R9 a failed first read does not crash the accept loop (shared with C16.R10) ----
+	c16ErrorPathDerefRule(c, "R9")
 }
 
 // checkCodecDependency re-derives the facts the quick tier trusts by pin, from the dependency's own source.
